@@ -46,7 +46,8 @@ CHECKS = {
                      "complete CLI->Settings wiring table extracted by path simulation of rcomp::main",
         "text": "Decides, for all grammars and runs, the structural conditions under which output bytes can differ: no "
                 "iterator over a hash collection feeds anything order-sensitive anywhere in the compiler, no clock/random/"
-                "pid/env input outside listed path/trace readers, no state carried in statics, and the complete "
+                "pid/env/file-time input outside listed path/trace readers, no state carried in statics, no build path in "
+                "any generated file (checked on everything the build and the witnesses generate), and the complete "
                 "Cli-field -> setter table (polarity, side effects, call order) that makes rcomp equal to the API. "
                 "This is a for-all argument from the shape of the code; it does not run the compiler.",
         "note": "Trusted: rustc MIR for the analysed build configuration; prettyplease/syn assumed deterministic; the "
@@ -88,7 +89,7 @@ CHECKS = {
         "text": "Every panic-capable construct in the runtime crate that is reachable from the public API is enumerated from "
                 "MIR and must be class-discharged, discharged by a dominating guard on the same terms, or match an exact row "
                 "of the audited triage table; plus progress guards of the retry loops, char-boundary provenance of lexer "
-                "offsets, layout-parser constants, GSS index validity, and that generated actions() never hands out Action::Error (backs the `cannot happen` arms)."
+                "offsets, layout-parser constants, GSS index validity, that generated actions() never hands out Action::Error and generated recognisers contain no unwrap/expect, that every Input::slice range is ordered by construction, and that the GLR driver does not call the recursive forest traversals."
                 " A new unwrap/index/slice/arith site or a removed "
                 "guard is reported with its call site. Totality is decided modulo the listed invariants; termination of the "
                 "main loops is not decided.",
@@ -104,7 +105,7 @@ CHECKS = {
         "text": "Every panic-capable construct of the compiler reachable from process_grammar/process_dir/generate_parser/"
                 "rcomp::main is enumerated from MIR and is class-discharged, guard-discharged, an audited invariant or a "
                 "listed (reproduced) finding; invariants that rest on other code are backed by rules (diagnostics still "
-                "returned as Err, symbol-table inserts guarded, identifiers validated (and check_identifier looks at the whole name), recogniser check over every terminal, "
+                "returned as Err, symbol-table inserts guarded, identifiers validated (and check_identifier looks at the whole name), index allocation only on a lookup miss, resolution passes cannot be short-cut, AST types deduced iff the default builder is used, recogniser check over every terminal, "
                 "no_match table, trait overrides). A new unwrap/assert/index or a weakened check is reported with its site.",
         "note": "Trusted: rustc MIR; invariant rows of rules/tables/panic_compiler.json are human judgements with reasons; "
                 "third-party crates (syn, prettyplease, clap) out of scope; termination not decided.",
@@ -188,7 +189,7 @@ CHECKS = {
         "level": "other",
         "ref": "DESIGN.md §5 C03",
         "technique": 'keying/provenance rules and guard rules over MIR by path simulation (GLR shifter, reducer, frontier, forest); thin claim',
-        "text": "THIN: decides the structural clauses with an oracle in the definition of a GSS / right-nulled table: shifted heads keyed by (state, position), sub-frontiers keyed consistently, right-nulled lengths, SPPF node label on child replacement, accept/forest collection, index past the end, and the registration table of the reducer against the RNGLR rules (new node: its shifts, reductions and accept; new edge on an old node: only reductions of length > 0 over that edge). The index decoding of solutions()/get_tree() is declined: no independent oracle.",
+        "text": "THIN: decides the structural clauses with an oracle in the definition of a GSS / right-nulled table: shifted heads keyed by (state, position), sub-frontiers keyed consistently, right-nulled lengths, SPPF node label on child replacement, accept/forest collection, index past the end, and the registration table of the reducer against the RNGLR rules (new node: its shifts, reductions and accept; new edge on an old node: only reductions of length > 0 over that edge), exactly one solution extended by a right-nulled path, and that nothing but the documented strategies takes lookaheads out of the candidate list. The index decoding of solutions()/get_tree() is declined: no independent oracle.",
         "note": 'Trusted: rustc MIR; Scott & Johnstone (RNGLR) for the registration table. That the worklist as a whole terminates with the complete forest is not decided.',
     },
     "C06": {
